@@ -128,6 +128,35 @@ def replay_interop():
     return False
 
 
+def replay_needs_update(which, stored, configured, present=True):
+    """the real update check on a real hash string carrying the stored cost (plus neighbouring costs)"""
+    import warnings
+    warnings.simplefilter("ignore")
+    from passlib import hash as PH
+    from libpass.hashers.sha_crypt import SHA256Hasher, SHA512Hasher
+    from libpass.hashers.pbkdf2 import PBKDF2SHA256Handler, PBKDF2SHA512Handler
+    from libpass.hashers.bcrypt import BcryptHasher, BcryptSHA256Hasher
+    L, P, lo, hi = {"sha256": (SHA256Hasher, PH.sha256_crypt, 1000, 999999999), "sha512": (SHA512Hasher, PH.sha512_crypt, 1000, 999999999),
+                    "pbkdf2-sha256": (PBKDF2SHA256Handler, PH.pbkdf2_sha256, 1, 2 ** 32 - 1),
+                    "pbkdf2-sha512": (PBKDF2SHA512Handler, PH.pbkdf2_sha512, 1, 2 ** 32 - 1),
+                    "bcrypt": (BcryptHasher, PH.bcrypt, 4, 31), "bcrypt-sha256": (BcryptSHA256Hasher, PH.bcrypt_sha256, 4, 31)}[which]
+    cheap = {"bcrypt": (4, 5, 6), "bcrypt-sha256": (4, 5, 6)}.get(which)
+    cases = [(stored, configured)]
+    base = 1000 if which.startswith("sha") else 4 if cheap else 2
+    cases += [(base, base), (base, base + 1), (base + 1, base), (base + 2, base + 1)]
+    for st, cf in cases:
+        if not (lo <= st <= hi and lo <= cf <= hi) or st > 20000 or (cheap and (st > 6 or cf > 31)):
+            continue
+        try:
+            h = P.using(rounds=st).hash("pw")
+            got = L(rounds=cf).needs_update(h)
+        except Exception as e:
+            return "needs_update(stored %d, configured %d) raises %r" % (st, cf, e)
+        if got != (st != cf):
+            return "libpass %s(rounds=%d).needs_update(hash with cost %d) -> %r" % (which, cf, st, got)
+    return False
+
+
 def ob_interop_concrete():
     r = replay_interop()
     if r:
@@ -200,7 +229,9 @@ def ob_needs_update(which):
         r, m = valid(gb == want, p.cond())
         if r == "sat":
             return _v("libpass %s.needs_update: stored cost %s, configured %s -> %r" % (
-                which, m.eval(stored.e, True), m.eval(configured.e, True), z3.is_true(m.eval(gb, True))), "needs_update:%s" % which)
+                which, m.eval(stored.e, True), m.eval(configured.e, True), z3.is_true(m.eval(gb, True))), "needs_update:%s" % which,
+                func="replay_needs_update", which=which, stored=m.eval(stored.e, True).as_long(),
+                configured=m.eval(configured.e, True).as_long(), present=z3.is_true(m.eval(present, True)))
         if r != "unsat":
             return inconclusive("solver %s" % r)
     # a hash of another format (inspector answers None) always needs an update
